@@ -150,7 +150,8 @@ def check_C03(tier, seed):
         for c in s["compile_fail"]:
             msg = (c.get("messages") or c.get("unattributed") or [""])[0]
             if c.get("uid") is None:
-                out.inconc("compile_failure_not_attributed")
+                out.violation(compile_signature(msg) + ":unattributed", "a batch of accepted grammars (with documented-type assertions) does not compile and the error could not be attributed to one grammar: %s" % msg[:300],
+                              {"profile": profile, "opts": opts, "rustc": msg[:1500], "batch": c.get("batch")})
                 continue
             out.violation(compile_signature(msg), "accepted grammar yields Rust code (or documented-type assertions) rustc rejects: %s" % msg[:300],
                           {"profile": profile, "opts": opts, "grammar_text": c.get("grammar_text"), "rustc": msg[:1500], "uid": c.get("uid")})
